@@ -2,6 +2,7 @@ package props
 
 import (
 	"strings"
+	"verif/internal/mutate"
 
 	"pgregory.net/rapid"
 
@@ -101,4 +102,32 @@ func lexClassList(ls []gen.Lex) string {
 		parts = append(parts, l.Class())
 	}
 	return strings.Join(parts, " ")
+}
+
+// drawClausePermutation draws a DDL-heavy sentence (corpus file or G) and permutes / repeats / drops its comma-separated or
+// keyword-introduced clauses (mutate.Segments, once or twice): trailing clauses in another order, a clause twice, a list
+// element moved - inputs a token-level edit does not produce and that the parser may reject, accept, or loop on.
+func drawClausePermutation(t *rapid.T) (src, kind string) {
+	switch rapid.IntRange(0, 9).Draw(t, "perm.source") {
+	case 0, 1, 2, 3:
+		var pool []CorpusFile
+		for _, c := range corpusGood() {
+			if c.Kind == "ddl" || c.Kind == "dml" {
+				pool = append(pool, c)
+			}
+		}
+		c := pool[rapid.IntRange(0, len(pool)-1).Draw(t, "perm.corpus")]
+		src, kind = c.Src, c.Kind
+	case 4, 5, 6, 7:
+		c := drawGenRelaxed(t, "ddl", 2)
+		src, kind = c.Text, c.S.Kind
+	default:
+		c := drawGen(t, rapid.SampledFrom([]string{"dml", "query", "call"}).Draw(t, "perm.kind"), 2)
+		src, kind = c.Text, c.S.Kind
+	}
+	src = mutate.Segments(t, src)
+	if rapid.IntRange(0, 2).Draw(t, "perm.twice") == 0 {
+		src = mutate.Segments(t, src)
+	}
+	return src, kind
 }
